@@ -153,14 +153,38 @@ impl Property for C03 {
         if !gen_ok {
             mism.push("claim generator".into());
         }
+        // the signature is reported with the algorithm that made it
+        let want_alg = { let mut c = g.alg.chars(); c.next().map(|f| f.to_ascii_uppercase().to_string() + c.as_str()).unwrap_or_default() };
+        match m.get("signature_info").and_then(|s| s.get("alg")).and_then(|a| a.as_str()) {
+            Some(a) if a.eq_ignore_ascii_case(&want_alg) => {}
+            other => mism.push(format!("signature_info.alg {other:?} (signed with {})", g.alg)),
+        }
         if mode != 9 {
+            let n_reported = m.get("assertions").and_then(|a| a.as_array()).map(|a| a.iter().filter(|x| x.get("label").and_then(|l| l.as_str()).map(|l| l.starts_with("org.sim.")).unwrap_or(false)).count()).unwrap_or(0);
+            if n_reported != g.assertions.len() {
+                mism.push(format!("assertion count: {n_reported} user assertions reported, {} supplied", g.assertions.len()));
+            }
             let reported: Vec<(String, Value)> = m.get("assertions").and_then(|a| a.as_array()).map(|a| a.iter().map(|x| (x.get("label").and_then(|l| l.as_str()).unwrap_or("").to_string(), x.get("data").cloned().unwrap_or(Value::Null))).collect()).unwrap_or_default();
-            for (l, d) in &g.assertions {
-                match reported.iter().find(|(rl, _)| rl == l) {
-                    None => mism.push(format!("assertion {l} missing")),
-                    Some((_, rd)) if rd != d => mism.push(format!("assertion {l} data differs")),
-                    _ => {}
+            // assertions supplied under one label come back under that label, in the order supplied
+            // (instance numbers are the SDK's own business: a label that is a prefix of an earlier
+            // one gets a non-zero instance, which is only counted)
+            let mut labels: Vec<&String> = g.assertions.iter().map(|a| &a.0).collect();
+            labels.dedup();
+            labels.sort();
+            labels.dedup();
+            for l in labels {
+                let want: Vec<&Value> = g.assertions.iter().filter(|a| &a.0 == l).map(|a| &a.1).collect();
+                let got: Vec<&Value> = reported.iter().filter(|a| &a.0 == l).map(|a| &a.1).collect();
+                if got.len() < want.len() {
+                    mism.push(format!("assertion {l} missing ({} of {} reported)", got.len(), want.len()));
+                } else if got.len() > want.len() {
+                    mism.push(format!("assertion {l} reported {} times, supplied {}", got.len(), want.len()));
+                } else if got != want {
+                    mism.push(format!("assertion {l} data differs"));
                 }
+            }
+            if m.get("assertions").and_then(|a| a.as_array()).map(|a| a.iter().any(|x| x.get("instance").and_then(|i| i.as_u64()).unwrap_or(0) > 0 && g.assertions.iter().filter(|s| Some(s.0.as_str()) == x.get("label").and_then(|l| l.as_str())).count() == 1)).unwrap_or(false) {
+                out.probe("nonzero-instance-for-a-label-supplied-once");
             }
             let extra: Vec<&String> = reported.iter().map(|x| &x.0).filter(|l| l.starts_with("org.sim.") && !g.assertions.iter().any(|(gl, _)| gl == *l)).collect();
             if !extra.is_empty() {
@@ -179,7 +203,7 @@ impl Property for C03 {
         if !mism.is_empty() {
             let cls = mism[0].split_whitespace().next().unwrap_or("").to_string();
             out.violate(0, &format!("report-differs-from-definition:{cls}"), "C03 the active manifest carries exactly what was supplied",
-                json!({"scenario": tag, "mismatches": mism}));
+                json!({"scenario": tag, "mismatches": mism, "reported": m.get("assertions").and_then(|a| a.as_array()).map(|a| a.iter().map(|x| format!("{}#{}", x.get("label").and_then(|l| l.as_str()).unwrap_or("?"), x.get("instance").map(|i| i.to_string()).unwrap_or("-".into()))).collect::<Vec<_>>())}));
         } else {
             out.probe("round-trip-ok");
         }
